@@ -6,7 +6,8 @@ own dimension; every random choice derives from the one `rng` passed in.
 """
 
 VALUES = [None, None, True, False, 0, 1, 7, -3, {"s": 0}, {"s": 1}, {"s": 2}, {"l": []}, {"l": [1, 2]},
-          {"t": [1]}, {"t": []}, {"o": 1, "b": True}, {"o": 2, "b": False}, {"l": [None]}]
+          {"t": [1]}, {"t": []}, {"o": 1, "b": True}, {"o": 2, "b": False}, {"l": [None]},
+          {"o": 5, "b": True, "eq": 1}]          # the last one claims to be equal to everything
 TRUTHY = [True, 1, 7, {"s": 1}, {"l": [0]}, {"t": [1]}, {"o": 1, "b": True}]
 FALSY = [False, None, 0, {"s": 0}, {"l": []}, {"t": []}, {"o": 2, "b": False}]
 
@@ -365,8 +366,14 @@ def gen_scenario(rng, knobs=None):
         if decor:
             decor["cbs"] = [c for c in decor["cbs"] if c[0] < len(trans) - any_group]
         ops = [(["send", e_any, op[2]] if (op[0] == "send" and rng.random() < 0.35) else op) for op in ops]
+    # some coroutine callbacks (never all of them: the engine is chosen from coroutine *functions*) are
+    # plain functions that return the coroutine
+    wrapped_coros = []
+    if len(acoro) >= 2 and rng.random() < K.get("wrapped_coros", 0.0):
+        cand = [list(x) for x in acoro[1:]]
+        wrapped_coros = [x for x in cand if rng.random() < 0.5]
     hosted = rng.random() < K.get("hosted", 0.0)
-    return {"stop_iter": rng.random() < K.get("stop_iter", 0.0), "any_group": any_group, "hosted": hosted, "callable_names": callable_names, "state_decor": state_decor, "decor": decor,
+    return {"wrapped_coros": wrapped_coros, "base_exc": rng.random() < K.get("base_exc", 0.0), "stop_iter": rng.random() < K.get("stop_iter", 0.0), "any_group": any_group, "hosted": hosted, "callable_names": callable_names, "state_decor": state_decor, "decor": decor,
             "evstyle": style, "mixed": mixed, "values": values, "async": acoro, "falsy_machine": rng.random() < K["falsy_machine"], "n": n, "initial": initial, "finals": finals, "ne": ne, "trans": trans, "states": states,
             "provs": provs, "start": start, "rtc": rtc, "allow": rng.random() < K["allow"],
             "field0": field0, "tbl": tbl, "ops": ops,
